@@ -728,7 +728,8 @@ theorem exponential_density_is_fourier_d1 (ℓ : ℝ) (hℓ : 0 < ℓ) (k : ℝ)
     rw [setIntegral_congr_fun measurableSet_Ioi hpos, integral_exp_mul_complex_Ioi hre₁]; simp
   have e₂ : ∫ r in Iic (0:ℝ), f r = 1 / a₂ := by
     rw [setIntegral_congr_fun measurableSet_Iic hneg, integral_exp_mul_complex_Iic hre₂]; simp
-  rw [← intervalIntegral.integral_Iic_add_Ioi i₂ i₁, e₁, e₂, expDensity_d1, sq_abs]
+  have habs : (|k| * ℓ) ^ 2 = (k * ℓ) ^ 2 := by rw [mul_pow, sq_abs, mul_pow]
+  rw [← intervalIntegral.integral_Iic_add_Ioi i₂ i₁, e₁, e₂, expDensity_d1, habs]
   have hπ : (π : ℂ) ≠ 0 := by exact_mod_cast Real.pi_pos.ne'
   have hℓ' : (ℓ : ℂ) ≠ 0 := by exact_mod_cast hℓ.ne'
   have h1 : a₁ ≠ 0 := fun h => by rw [h] at hre₁; simp at hre₁
@@ -750,6 +751,75 @@ theorem exponential_density_is_fourier_d1 (ℓ : ℝ) (hℓ : 0 < ℓ) (k : ℝ)
     have : 0 < 1 + (k * ℓ) ^ 2 := by positivity
     exact_mod_cast this.ne'
   field_simp
+
+
+/-! ## 9. Gaussian d = 1 ppf (with `erfinv` := the inverse of the defined `erf`), mass of the code's pdf -/
+
+private theorem erfR_surj_Ico (u : ℝ) (h0 : 0 ≤ u) (h1 : u < 1) : ∃ x, erfR x = u := by
+  have hev : ∀ᶠ x in atTop, u < erfR x := (tendsto_order.1 tendsto_erfR_atTop).1 u h1
+  obtain ⟨x1, hx1, hx0⟩ := (hev.and (eventually_ge_atTop (0:ℝ))).exists
+  have hu : u ∈ Icc (erfR 0) (erfR x1) := ⟨by rw [erfR_zero]; exact h0, hx1.le⟩
+  obtain ⟨x, _, hx⟩ := intermediate_value_Icc hx0 continuous_erfR.continuousOn hu
+  exact ⟨x, hx⟩
+
+/-- Gaussian d = 1: `cdf (ppf u) = u` on `[0, 1)` when `erfinv` inverts the `erf` defined by its integral -/
+theorem cdf_ppf_gaussian_d1 (ℓ : ℝ) (hℓ : 0 < ℓ) (u : ℝ) (hu : 0 ≤ u ∧ u < 1) :
+    ∃ r, gauPpf specialR 1 ℓ u = some r ∧ gauCdf specialR 1 ℓ r = some u := by
+  refine ⟨2 / ℓ * Function.invFun erfR u, by simp [gauPpf], ?_⟩
+  rw [offers_gaussian_d1 ℓ]
+  congr 1
+  beta_reduce
+  have e : 2 / ℓ * Function.invFun erfR u * ℓ / 2 = Function.invFun erfR u := by field_simp
+  rw [e, Function.invFun_eq (erfR_surj_Ico u hu.1 hu.2)]
+
+private theorem model_mass {F p g : ℝ → ℝ} {a : ℝ} (ha : 0 ≤ a) (hd : ∀ x, HasDerivAt F (p x) x)
+    (hp : ∀ x ∈ Ioi a, 0 ≤ p x) (hlim : Tendsto F atTop (𝓝 1)) (hg0 : ∀ x ∈ Ioc 0 a, g x = 0)
+    (hg1 : ∀ x ∈ Ioi a, g x = p x) : ∫ x in Ioi (0:ℝ), g x = 1 - F a := by
+  have ip : IntegrableOn p (Ioi a) := integrableOn_Ioi_deriv_of_nonneg' (fun x _ => hd x) hp hlim
+  have i1 : IntegrableOn g (Ioi a) := ip.congr_fun (fun x hx => (hg1 x hx).symm) measurableSet_Ioi
+  have i0 : IntegrableOn g (Ioc 0 a) :=
+    (integrableOn_zero : IntegrableOn (fun _ : ℝ => (0:ℝ)) (Ioc 0 a)).congr_fun
+      (fun x hx => (hg0 x hx).symm) measurableSet_Ioc
+  rw [← Ioc_union_Ioi_eq_Ioi ha,
+    setIntegral_union (Ioc_disjoint_Ioi le_rfl) measurableSet_Ioi i0 i1,
+    setIntegral_congr_fun measurableSet_Ioc hg0, setIntegral_congr_fun measurableSet_Ioi hg1,
+    integral_Ioi_of_hasDerivAt_of_nonneg' (fun x _ => hd x) hp hlim]
+  simp
+
+/-- **mass of the code's `spectral_rad_pdf`** (with its zeroing of `r ≤ 1e-8` for d > 1): for Gaussian and
+    Exponential in d = 2, 3 it is `1 − cdf(1e-8)`, not `1`; the rule costs exactly the mass of the band. -/
+theorem rad_pdf_model_mass (d : ℕ) (hd : d = 2 ∨ d = 3) (ℓ : ℝ) (hℓ : 0 < ℓ) {F G : ℝ → ℝ}
+    (hF : Offers (gauCdf specialR d ℓ) F) (hG : Offers (expCdf d ℓ) G) :
+    ∫ r in Ioi (0:ℝ), radPdf d (gauDensity d ℓ) r = 1 - F 1e-8 ∧
+      ∫ r in Ioi (0:ℝ), radPdf d (expDensity d ℓ) r = 1 - G 1e-8 := by
+  have h1d : 1 < d := by omega
+  have hz : ∀ (dens : ℝ → ℝ), ∀ x ∈ Ioc (0:ℝ) 1e-8, radPdf d dens x = 0 := by
+    intro dens x hx
+    rw [rad_pdf_def, if_pos ⟨h1d, by rw [abs_of_pos hx.1]; exact hx.2⟩]
+  have hx0 : ∀ x ∈ Ioi (1e-8:ℝ), (0:ℝ) ≤ x := by
+    intro x hx
+    have h8 : (0:ℝ) < 1e-8 := by norm_num
+    exact (h8.trans hx).le
+  have hs : ∀ (dens : ℝ → ℝ), (∀ x, 0 ≤ dens x) → ∀ x ∈ Ioi (1e-8:ℝ), radPdf d dens x = radFac d x * dens x :=
+    fun dens hdens x hx => rad_pdf_eq_smooth d (by omega) dens x (hx0 x hx) (Or.inr hx) (hdens x)
+  have hpg : ∀ x ∈ Ioi (1e-8:ℝ), 0 ≤ radFac d x * gauDensity d ℓ x := fun x hx =>
+    mul_nonneg (rad_fac_nonneg d (by omega) x (hx0 x hx)) (gauDensity_nonneg d ℓ x hℓ.le)
+  have hpe : ∀ x ∈ Ioi (1e-8:ℝ), 0 ≤ radFac d x * expDensity d ℓ x := fun x hx =>
+    mul_nonneg (rad_fac_nonneg d (by omega) x (hx0 x hx)) (expDensity_nonneg d ℓ x hℓ.le)
+  have ha : (0:ℝ) ≤ 1e-8 := by norm_num
+  rcases hd with rfl | rfl
+  · exact ⟨model_mass ha (cdf_deriv_gaussian_d2 ℓ hF) hpg (cdf_tendsto_one_gaussian_d2 ℓ hℓ hF)
+        (hz _) (hs _ (fun x => gauDensity_nonneg 2 ℓ x hℓ.le)),
+      model_mass ha (cdf_deriv_exponential_d2 ℓ hG) hpe (cdf_tendsto_one_exponential_d2 ℓ hℓ hG)
+        (hz _) (hs _ (fun x => expDensity_nonneg 2 ℓ x hℓ.le))⟩
+  · exact ⟨model_mass ha (cdf_deriv_gaussian_d3 ℓ hF) hpg (cdf_tendsto_one_gaussian_d3 ℓ hℓ hF)
+        (hz _) (hs _ (fun x => gauDensity_nonneg 3 ℓ x hℓ.le)),
+      model_mass ha (cdf_deriv_exponential_d3 ℓ hG) hpe (cdf_tendsto_one_exponential_d3 ℓ hℓ hG)
+        (hz _) (hs _ (fun x => expDensity_nonneg 3 ℓ x hℓ.le))⟩
+
+example (ℓ : ℝ) : Offers (gauCdf specialR 2 ℓ) (fun r => 1 - Real.exp (-(r * ℓ / 2) ^ 2)) ∧
+    Offers (expCdf 2 ℓ) (fun r => 1 - 1 / √(1 + (r * ℓ) ^ 2)) :=
+  ⟨offers_gaussian_d2 ℓ, offers_exponential_d2 ℓ⟩
 
 
 end GSV.Props.C04
